@@ -153,6 +153,19 @@ func (p *BlockParser) makeRoot(docChildren []*Block) *RootBlock {
 	if len(docChildren) == 0 || docChildren[0].isOpen() {
 		return nil
 	}
+	if first := docChildren[0]; first.kind == LinkReferenceDefinitionKind && first.span.Start > 0 {
+		// A definition split off a paragraph may come from a continuation line
+		// that is indented by four or more columns.
+		// On its own such a line would be an indented code block:
+		// leave the indentation out of the root block's source.
+		skip := first.span.Start
+		p.offset += int64(unpaddedNullLength(p.buf[:skip]))
+		p.buf = p.buf[skip:]
+		p.i -= skip
+		for _, b := range docChildren {
+			offsetTree(b.AsNode(), -skip)
+		}
+	}
 	n := docChildren[0].Span().End
 	originalLength := int64(unpaddedNullLength(p.buf[:n]))
 	block := &RootBlock{
